@@ -87,7 +87,7 @@ func init() {
 	c06r.Steps = 80
 	sup.Register(&sup.Check{
 		Prop: "C06", Level: "exploration",
-		Rule:        "engine A: expected accept/refuse of every insert-style entry point from the model's 'has a body' / 'exists at all', frame rule on refusal, read-back on success; every (pre-state setup incl. delete/re-create cycles through different entry points) x op variant x follow-up insert is enumerated, plus random insert-heavy histories; WriteCas with AddOnly combined with Raw / Persist / Indexable in every CAS class; cell = (op variant, pre-state class, outcome, bucket type)",
+		Rule:        "engine A: expected accept/refuse of every insert-style entry point from the model's 'has a body' / 'exists at all', frame rule on refusal, read-back on success; every (pre-state setup incl. delete/re-create cycles through different entry points) x op variant x follow-up insert is enumerated, plus random insert-heavy histories; WriteCas with AddOnly combined with Raw / Persist / Indexable in every CAS class; WriteCas without a body with CAS 0 / AddOnly precedes the insert-style follow-ups; cell = (op variant, pre-state class, outcome, bucket type)",
 		Assumptions: kvAssume,
 		Parts: []sup.Part{
 			exhaustivePart("exhaustive", c06),
@@ -114,7 +114,7 @@ func init() {
 	}
 	sup.Register(&sup.Check{
 		Prop: "C07", Level: "exploration",
-		Rule:        "engine A with documents carrying 0-5 system and user xattrs; after every step the read-back of every xattr name in the pool is compared: names the call did not mention must be byte-identical, fresh values JSON-equivalent, macro expansions equal to the new CAS / CRC32-C of the stored body (computed independently); failure injection by stale CAS, missing xattr, oversize (MaxDocSize lowered), unparseable xattr JSON and argument-validation errors, each followed by the frame rule; (forced windows) expiry and macro specs of a WriteUpdateWithXattrs attempt that lost its CAS check must not be applied by the retry, the exp argument must be honoured; cell = (op variant, pre-state class, outcome, bucket type)",
+		Rule:        "engine A with documents carrying 0-5 system and user xattrs; after every step the read-back of every xattr name in the pool is compared: names the call did not mention must be byte-identical, fresh values JSON-equivalent, macro expansions equal to the new CAS / CRC32-C of the stored body (computed independently); failure injection by stale CAS, missing xattr, oversize (MaxDocSize lowered), unparseable xattr JSON and argument-validation errors, each followed by the frame rule; (forced windows) expiry and macro specs of a WriteUpdateWithXattrs attempt that lost its CAS check must not be applied by the retry, the exp argument must be honoured; macro paths that name only the xattr (argument error: no panic, nothing applied); xattr values followed by surplus closing braces / brackets / trailing text; cell = (op variant, pre-state class, outcome, bucket type)",
 		Assumptions: append([]string{"WithMeta xattr blobs are generated in encoding/json canonical form (rosmar stores them verbatim and normalises them on the next xattr write)"}, kvAssume...),
 		Parts: []sup.Part{
 			exhaustivePart("exhaustive", c07),
@@ -172,7 +172,7 @@ func init() {
 	c11r.Keys = []string{"k0", "k1", "k2"}
 	sup.Register(&sup.Check{
 		Prop: "C11", Level: "exploration",
-		Rule:        "engine A on 2 buckets x 4 collections (the default one, the same collection name in two scopes, two collections in one scope) that all hold the same key names: after every step the same key is re-read in every other collection and bucket and must be byte-identical to its last read-back (isolation frame), every other collection's feed must stay silent and events must carry the addressed collection's id; periodic full sweeps; PurgeTombstones, DropDataStore + re-create, Touch in the op mix; (non-interference) two buckets get the same history on c0, one of them also gets writes, WithMeta writes, deletions and drops on c1/c2: non-stale views (5 parameter shapes x 4 views) and 3 SQL statements over c0 must return identical results in both; (stale DataStore) handle A drops a collection and creates another (or the same name again), handle B then issues 14 kinds of writes through the DataStore it still holds for the dropped collection: every key of every other collection must keep its read-back and their feeds stay silent; the non-interference run also compares the live feed of c0 (key, opcode, expiry, datatype) between the two buckets; cell = (op variant, pre-state class, outcome, bucket type)",
+		Rule:        "engine A on 2 buckets x 4 collections (the default one, the same collection name in two scopes, two collections in one scope) that all hold the same key names: after every step the same key is re-read in every other collection and bucket and must be byte-identical to its last read-back (isolation frame), every other collection's feed must stay silent and events must carry the addressed collection's id; periodic full sweeps; PurgeTombstones, DropDataStore + re-create, Touch in the op mix; (non-interference) two buckets get the same history on c0, one of them also gets writes, WithMeta writes, deletions and drops on c1/c2: non-stale views (5 parameter shapes x 4 views) and 3 SQL statements over c0 must return identical results in both; (stale DataStore) handle A drops a collection and creates another (or the same name again), handle B then issues 14 kinds of writes through the DataStore it still holds for the dropped collection: every key of every other collection must keep its read-back and their feeds stay silent; the non-interference run also compares the live feed of c0 (key, opcode, expiry, datatype) between the two buckets; an expression index is created on a sibling collection in half of the non-interference runs; (stale DataStore) a DataStore asked for by name after the drop and re-creation must be the collection that exists now; the bucket's earliest deadline may sit in a collection that is dropped before it comes due; cell = (op variant, pre-state class, outcome, bucket type)",
 		Assumptions: append([]string{"inside engine A DropDataStore is exercised through the only open handle of the bucket (a sibling handle keeps a stale Collection object by design of the API); what that stale object may do to OTHER collections is judged by the stale-handle part, what it returns itself is not"}, kvAssume...),
 		Parts: []sup.Part{
 			exhaustivePart("exhaustive-sibling-has-key", c11),
